@@ -143,6 +143,7 @@ def make_fake_optimizer_class():
         """an `_Optimizer` whose step() replays a script of (last, loss, reject_count|None)"""
 
         def __init__(self, has_reject: bool):  # noqa: no super().__init__: no parameters needed
+            self.defaults, self.state, self.param_groups = {}, {}, []   # what torch's Optimizer pickling expects
             self.script = []
             self.calls = 0
             self.loss = None
